@@ -115,7 +115,7 @@ class ParallelStep(GeneticStep):
                     evaluator,
                     representation,
                     random,
-                    population,
+                    npopulation,
                     end - start,
                     generation,
                 )
